@@ -16,6 +16,7 @@ EXPLANATION = (
 def run(ctx):
     R.rule_grammar_classes(ctx)
     R.rule_binder_requirements(ctx)
+    R.rule_block_construct_comments(ctx)
     R.rule_verbatim(ctx)
     R.rule_write_after_render(ctx)
     R.rule_render_fallible(ctx)
